@@ -55,12 +55,20 @@ pub fn run_cmd(mut cmd: Command, timeout_ms: u64) -> Out {
 }
 
 pub fn run(prog: &str, args: &[&str], cwd: Option<&Path>, timeout_ms: u64) -> Out {
-    let mut c = Command::new(prog);
-    c.args(args);
-    if let Some(d) = cwd {
-        c.current_dir(d);
+    let mk = || {
+        let mut c = Command::new(prog);
+        c.args(args);
+        if let Some(d) = cwd {
+            c.current_dir(d);
+        }
+        c
+    };
+    let out = run_cmd(mk(), timeout_ms);
+    if out.timed_out {
+        // a compiler that needs minutes is a loaded machine, never a verdict: one long retry
+        return run_cmd(mk(), timeout_ms.saturating_mul(10));
     }
-    run_cmd(c, timeout_ms)
+    out
 }
 
 pub fn run_ok(prog: &str, args: &[&str]) -> bool {
